@@ -294,6 +294,111 @@ theorem etag_recognised (name e : Bytes) (h : StrongTag e) : rewriteINM name (ad
 theorem weak_inm_untouched (name inm : Bytes) (h : hasPrefix vWeakPrefix inm = true) : rewriteINM name inm = inm := by
   simp [rewriteINM, h]
 
+/-! ### the glue: from an `encode` directive of a Caddyfile to the configuration the handler runs with -/
+
+/-- `Validate` accepts `prefer` exactly when it lists enabled encodings only and none twice -/
+theorem validate_iff (offered prefer : List Bytes) :
+    validatePrefer offered prefer = true ↔ prefer.Nodup ∧ ∀ p ∈ prefer, p ∈ offered :=
+  validatePrefer_iff offered prefer
+
+/-- **the preference list is the set of enabled encodings**: whatever the directive looks like, every enabled
+    encoding is in `prefer` and every preferred one is enabled. -/
+theorem caddyfile_prefer_is_enabled_set (args : List Bytes) (block : List Line) (st : CfState)
+    (h : parseEncode args block = .ok st) : ∀ n, n ∈ st.prefer ↔ n ∈ st.encs := by
+  unfold parseEncode at h
+  split at h
+  · rename_i st1 h1
+    have hs1 := procBlock_sameNames block CfState.empty st1 h1 (fun n => by simp [CfState.empty])
+    exact (procArgs_spec _ st1 st h hs1).1
+  · rename_i hne
+    cases hb : procBlock block CfState.empty with
+    | ok s1 => exact absurd hb (hne s1)
+    | parseErr => rw [hb] at h; cases h
+    | loadErr => rw [hb] at h; cases h
+    | unsupported => rw [hb] at h; cases h
+
+/-- **block first, then the line; listed once** (commit e21a4a9): `prefer` starts with the block's encoders in
+    block order, continues with formats of the directive line, and if the block names no encoder twice then no
+    encoding is listed twice — naming a format on the line AND configuring it in the block is fine. -/
+theorem caddyfile_line_and_block_listed_once (args : List Bytes) (block : List Line) (stB st : CfState)
+    (hb : procBlock block CfState.empty = .ok stB) (h : parseEncode args block = .ok st) :
+    (∃ added, st.prefer = stB.prefer ++ added) ∧ (stB.prefer.Nodup → st.prefer.Nodup) ∧
+      st.minLen = stB.minLen ∧ st.matcher = stB.matcher := by
+  unfold parseEncode at h
+  rw [hb] at h
+  have hs1 := procBlock_sameNames block CfState.empty stB hb (fun n => by simp [CfState.empty])
+  obtain ⟨_, i2, ⟨added, e, _⟩, i4, i5, _⟩ := procArgs_spec _ stB st h hs1
+  exact ⟨⟨added, e⟩, i2, i4, i5⟩
+
+/-- nothing named at all: the documented default `zstd gzip`, in that order -/
+theorem caddyfile_default_encodings (block : List Line) (stB st : CfState)
+    (hb : procBlock block CfState.empty = .ok stB) (hnone : stB.prefer = [])
+    (h : parseEncode [] block = .ok st) : st.prefer = [vZstd, vGzip] := by
+  unfold parseEncode at h
+  rw [hb] at h
+  have hs1 := procBlock_sameNames block CfState.empty stB hb (fun n => by simp [CfState.empty])
+  have henc : stB.encs = [] := by
+    cases he : stB.encs with
+    | nil => rfl
+    | cons x xs => have := (hs1 x).mpr (by rw [he]; exact List.mem_cons_self); rw [hnone] at this; cases this
+  simp [procArgs, henc, hnone] at h
+  rw [if_neg (by decide)] at h
+  injection h with h
+  rw [← h]
+
+/-- **a directive whose block names each encoder at most once loads**: `Validate` cannot reject it (only a
+    gzip level outside [-3, 9] can still fail), and the handler runs with exactly the parsed preference list,
+    the provisioned minimum length (never 0) and — without a `match` — the default matcher. -/
+theorem caddyfile_valid_unless_block_repeats (args : List Bytes) (block : List Line) (stB st : CfState)
+    (hb : procBlock block CfState.empty = .ok stB) (h : parseEncode args block = .ok st)
+    (hnd : stB.prefer.Nodup) (hlvl : gzipLevelOk st.gzipLevel = true) :
+    ∃ c, adaptEncode args block = .ok c ∧ c.prefer = st.prefer ∧ c.offered = st.encs ∧
+      c.minLen = provisionMinLen st.minLen ∧ c.minLen ≠ 0 ∧ c.matcher = provisionMatcher st.matcher := by
+  have hset := caddyfile_prefer_is_enabled_set args block st h
+  have hnd' := (caddyfile_line_and_block_listed_once args block stB st hb h).2.1 hnd
+  have hv : validatePrefer st.encs st.prefer = true :=
+    (validatePrefer_iff _ _).mpr ⟨hnd', fun p hp => (hset p).mp hp⟩
+  refine ⟨⟨st.encs, st.prefer, provisionMinLen st.minLen, provisionMatcher st.matcher⟩, ?_, rfl, rfl, rfl, ?_, rfl⟩
+  · unfold adaptEncode loadEncode
+    rw [h]
+    simp [hlvl, hv]
+  · show provisionMinLen st.minLen ≠ 0
+    by_cases hz : st.minLen = 0
+    · simp [provisionMinLen, hz]
+    · simp [provisionMinLen, hz]
+
+/-- `Provision`'s defaults -/
+theorem provision_defaults :
+    provisionMinLen 0 = 512 ∧ (∀ n : Int, n ≠ 0 → provisionMinLen n = n) ∧ provisionMatcher none = defaultMatcher ∧
+      (∀ m, provisionMatcher (some m) = m) :=
+  ⟨rfl, fun n hn => by simp [provisionMinLen, hn], rfl, fun _ => rfl⟩
+
+/-- **what is applied was asked for**: with a configuration adapted from a directive, the coding `ServeHTTP`
+    negotiates is one the directive names (or a default), and the client accepts it. -/
+theorem adapted_negotiation_within_directive (args : List Bytes) (block : List Line) (c : Loaded) (req : Req)
+    (n : Bytes) (ha : adaptEncode args block = .ok c) (hn : chooseEncoding c.offered c.prefer req = some n) :
+    n ∈ c.prefer ∧ Accepts req.acceptEnc n := by
+  have hneg := negotiated_only_if c.offered c.prefer req n hn
+  refine ⟨?_, hneg.1⟩
+  unfold adaptEncode at ha
+  cases hp : parseEncode args block with
+  | ok st =>
+    rw [hp] at ha
+    change loadEncode st = .ok c at ha
+    unfold loadEncode at ha
+    by_cases h1 : (st.encs.contains vGzip && !gzipLevelOk st.gzipLevel) = true
+    · rw [if_pos h1] at ha; cases ha
+    · rw [if_neg h1] at ha
+      by_cases h2 : (!validatePrefer st.encs st.prefer) = true
+      · rw [if_pos h2] at ha; cases ha
+      · rw [if_neg h2] at ha
+        injection ha with ha
+        subst ha
+        exact (caddyfile_prefer_is_enabled_set args block st hp n).mpr hneg.2.1
+  | parseErr => rw [hp] at ha; cases ha
+  | loadErr => rw [hp] at ha; cases ha
+  | unsupported => rw [hp] at ha; cases ha
+
 /-! ### non-vacuity: the hypotheses are met by concrete, non-trivial runs (kernel-evaluated) -/
 
 /-- `text/html` -/
@@ -346,6 +451,18 @@ example : chooseEncoding [vGzip] [] ⟨false, [103, 122, 105, 112, 59, 113, 61, 
 set_option maxRecDepth 8000 in
 example : chooseEncoding [vGzip, vZstd] [vGzip, vZstd] exReq = some vZstd ∧
     acceptedPrefs exAE false [vGzip, vZstd] = [⟨vGzip, 500, 2⟩, ⟨vZstd, 1000, 1⟩] := by decide
+
+-- the glue theorems: `encode gzip { gzip 5 ; minimum_length 100 ; zstd }` — gzip is named on the line AND
+-- configured in the block: listed once, block order first, loads; `encode` alone gives zstd, gzip, 512
+example : loadedSummary (adaptEncode [vGzip] [⟨[vGzip, [53]], none⟩, ⟨[tMinimumLength, [49, 48, 48]], none⟩, ⟨[vZstd], none⟩])
+    = some ([vGzip, vZstd], [vGzip, vZstd], 100) := by decide
+example : loadedSummary (adaptEncode [] []) = some ([vZstd, vGzip], [vZstd, vGzip], 512) := by decide
+-- an encoder named twice IN THE BLOCK is still rejected by Validate (the hypothesis of
+-- `caddyfile_valid_unless_block_repeats` is needed), and so is gzip level 99
+example : isLoadErr (adaptEncode [] [⟨[vGzip], none⟩, ⟨[vGzip], none⟩]) = true := by decide
+example : isLoadErr (adaptEncode [] [⟨[vGzip, [57, 57]], none⟩]) = true := by decide
+-- the token-stream quirk: `minimum_length 5 zstd` on one line enables zstd
+example : loadedSummary (adaptEncode [] [⟨[tMinimumLength, [53], vZstd], none⟩]) = some ([vZstd], [vZstd], 5) := by decide
 
 -- `status_preserved`: its hypotheses are met by exOps' shape (pre = 4 ops, s = 200, body = 4 ops)
 example : ∀ op ∈ ([.hset kCT exTextHtml, .writeHeader 103] : List (Op Nat)), Preliminary op := by
